@@ -29,22 +29,27 @@ def parseHexNat (s : String) : Option Nat :=
 
 def splitList (s sep : String) : List String := if s == "!" then [] else s.splitOn sep
 
+/-- token → the bytes of the Go string it denotes -/
+def unescB (tok : String) : Option Str := (unescRaw tok).map (fun bs => bs.map (·.toNat))
+/-- bytes → token (same alphabet as `kit.Esc`) -/
+def escB (s : Str) : String := if s.isEmpty then "%" else s.foldl (fun acc b => acc ++ escByte (UInt8.ofNat b)) ""
+
 def parseBool (s : String) : Option Bool := if s == "1" then some true else if s == "0" then some false else none
 
-def parseKV {α : Type} (val : String → Option α) (e : String) : Option (String × α) :=
+def parseKV {α : Type} (val : String → Option α) (e : String) : Option (Str × α) :=
   match e.splitOn "=" with
-  | [k, v] => do pure (← unesc k, ← val v)
+  | [k, v] => do pure (← unescB k, ← val v)
   | _ => none
 
 def parseMap {α : Type} (val : String → Option α) (s : String) : Option (GoMap α) := (splitList s ",").mapM (parseKV val)
 
-def parseTags (s : String) : Option Tags := parseMap unesc s
-def parseDims (s : String) : Option (List String) := (splitList s ",").mapM unesc
+def parseTags (s : String) : Option Tags := parseMap unescB s
+def parseDims (s : String) : Option (List Str) := (splitList s ",").mapM unescB
 
 def parseFV (s : String) : Option FV :=
   let rest := (s.drop 1).toString
   match s.front with
-  | 's' => (unesc rest).map .str
+  | 's' => (unescB rest).map .str
   | 'f' => (parseHexNat rest).map .float
   | 'i' => rest.toInt?.map .int
   | 'b' => (parseBool rest).map .bool
@@ -63,7 +68,7 @@ def parseBPs (s : String) : Option (List BP) := (splitList s "~").mapM parseBP
 def parseInPoint (tok : String) : Option Point :=
   match tok.splitOn "|" with
   | ["P", n, d, r, dims, bn, tags, fields, tm] => do
-    pure (newPoint (← unesc n) (← unesc d) (← unesc r) (← parseBool bn) (← parseDims dims) (← parseFields fields)
+    pure (newPoint (← unescB n) (← unescB d) (← unescB r) (← parseBool bn) (← parseDims dims) (← parseFields fields)
       (← parseTags tags) (← tm.toInt?))
   | _ => none
 
@@ -73,7 +78,7 @@ def parseInBatch (tok : String) : Option (Begin × List BP × Bool) :=
   | ["B", n, bn, tags, tmax, sh, pts, sd] => do
     let tags ← parseTags tags
     let bn ← parseBool bn
-    let b := newBegin (← unesc n) tags bn (← tmax.toInt?) (← sh.toInt?)
+    let b := newBegin (← unescB n) tags bn (← tmax.toInt?) (← sh.toInt?)
     let pts ← parseBPs pts
     if sd == "*" then pure (b, pts, false)
     else pure (b.setTagsAndDimensions tags bn (← parseDims sd), pts, true)
@@ -83,15 +88,15 @@ def parseInBatch (tok : String) : Option (Begin × List BP × Bool) :=
 def parseOut (tok : String) : Option (Data × Int) :=
   match tok.splitOn "|" with
   | ["P", n, d, r, g, dims, bn, tags, fields, tm] => do
-    pure (.point { name := ← unesc n, db := ← unesc d, rp := ← unesc r, group := ← unesc g, dims := ← parseDims dims,
+    pure (.point { name := ← unescB n, db := ← unescB d, rp := ← unescB r, group := ← unescB g, dims := ← parseDims dims,
                    byName := ← parseBool bn, tags := ← parseTags tags, fields := ← parseFields fields, time := ← tm.toInt? }, 0)
   | ["B", n, g, dims, bn, tags, tmax, sh, pts] => do
     let sh ← sh.toInt?
-    pure (.batch { name := ← unesc n, group := ← unesc g, dims := ← parseDims dims, byName := ← parseBool bn,
+    pure (.batch { name := ← unescB n, group := ← unescB g, dims := ← parseDims dims, byName := ← parseBool bn,
                    tags := ← parseTags tags, tmax := ← tmax.toInt?, sizeHint := sh } (← parseBPs pts), sh)
   | _ => none
 
-def renderDims (d : List String) : String := if d.isEmpty then "!" else ",".intercalate (d.map esc)
+def renderDims (d : List Str) : String := if d.isEmpty then "!" else ",".intercalate (d.map escB)
 
 /-! ### the harness's chunking (harness/c19/c19.go splitChunks) -/
 
@@ -124,7 +129,7 @@ structure St where
   frames : Array (List Nat × List Nat) := #[]   -- observed (varint, payload) of each WriteMessage
   -- echo cases
   sess : Session := {}
-  sent : Array Data := #[]
+  sent : Array Data := #[]                      -- data messages sent while the model session was not aborted
   modelOut : Array EdgeMsg := #[]
   chunked : Bool := false
   branches : List String := []
@@ -144,7 +149,7 @@ def fieldBranches (f : Fields) : List String :=
   (if (strsOf f).isEmpty then [] else ["typed-string"]) ++ (if (floatsOf f).isEmpty then [] else ["typed-float"]) ++
   (if (intsOf f).isEmpty then [] else ["typed-int"]) ++ (if (boolsOf f).isEmpty then [] else ["typed-bool"])
 
-def groupBranch (byName : Bool) (dims : List String) : String :=
+def groupBranch (byName : Bool) (dims : List Str) : String :=
   if dims.isEmpty then (if byName then "group-name-only" else "group-nil") else (if byName then "group-name+dims" else "group-dims")
 
 def typesIn (f : Fields) : Nat :=
@@ -156,9 +161,17 @@ def errKind : RdErr → String
   | .eof => "eof"
   | _ => "err"
 
+/-- Every piece of a wire token (split at the separators) that is a string field is `%`-escaped; the other pieces
+(numbers, hex) are ASCII. So "all string fields are valid UTF-8" = "all pieces are". -/
+def wireStringsValid (tok : String) : Bool :=
+  let pieces := (tok.splitOn "|").flatMap (fun a => (a.splitOn ",").flatMap (fun b => b.splitOn "="))
+  pieces.all (fun pc => match unescB pc with | some b => validUTF8 b | none => true)
+
 def judgeWrite (st : St) (tok : String) (obs : List String) (l : String) : Except Verdict St :=
+  let valid := wireStringsValid tok
   match obs with
   | [v, p] =>
+    if !valid then .error (.mismatch "proto.Marshal accepted a message the model's validUTF8 rejects") else
     match parseHex v, parseHex p with
     | some v, some p =>
       match writeMessage p with
@@ -170,7 +183,11 @@ def judgeWrite (st : St) (tok : String) (obs : List String) (l : String) : Excep
           .ok { st with written := st.written.push tok, frames := st.frames.push (v, p) }
       | none => .error (.mismatch "WriteMessage: model panics (length needs more than 5 varint bytes)")
     | _, _ => .error (.badop l)
-  | _ => .error (.specfail "framing-roundtrip" s!"WriteMessage of a well-formed message failed: {obs}")
+  | _ =>
+    -- WriteMessage failed: the model says so exactly when a string field is not valid UTF-8 (finding invalid-utf8;
+    -- nothing was written, the stream stays well-formed)
+    if !valid then .ok (addBr st "marshal-rejects-invalid-utf8")
+    else .error (.specfail "framing-roundtrip" s!"WriteMessage of a well-formed message failed: {obs}")
 
 def judgeRead (st : St) (pat ewd cut : String) (obs : List String) (l : String) : Except Verdict St := do
   let some pat := parsePattern pat | .error (.badop l)
@@ -258,20 +275,32 @@ def ctlRequest (st : St) (r : Request) : Except Verdict (St × List Out) :=
 def judgeOut (st : St) (obs : List String) (l : String) : Except Verdict St := do
   match obs with
   | status :: ka :: diag :: toks =>
-    if status != "ok" || diag != "diag=0" then
-      .error (.specfail "session-clean" s!"a well-behaved session ended with {status} {diag}")
     let toks := if toks == ["!"] then [] else toks
     let some recvd := toks.mapM parseOut | .error (.badop l)
+    let rd := recvd.map (·.1)
     let sent := st.sent.toList
-    if !echoIdentity sent (recvd.map (·.1)) then
-      let i := firstDiff sent (recvd.map (·.1))
-      .error (.specfail "echo-identity" s!"sent {sent.length} data messages, received {recvd.length}; first difference at index {i}: received {toks.getD i "nothing"}")
+    if st.sess.aborted then
+      -- recorded deviation invalid-utf8: the server aborted; a prefix of what was sent before came back
+      if status == "ok" then
+        .error (.specfail "session-clean" "a message with a string that is not valid UTF-8 was sent and the session reports ok (deviation invalid-utf8 no longer matches)")
+      if rd.length ≤ sent.length && echoIdentityUpToDims (sent.take rd.length) rd then
+        .error (.known "invalid-utf8" s!"server aborted; {rd.length} of the {sent.length} messages sent before the offending one came back")
+      .error (.specfail "echo-identity" "invalid UTF-8 input: what came back is not the echo of a prefix of what was sent before it")
+    if status != "ok" || diag != "diag=0" then
+      .error (.specfail "session-clean" s!"a well-behaved session ended with {status} {diag}")
+    let dimsDev := sent.any devDims
+    if !echoIdentity sent rd then
+      if !(dimsDev && echoIdentityUpToDims sent rd) then
+        let i := firstDiff sent rd
+        .error (.specfail "echo-identity" s!"sent {sent.length} data messages, received {recvd.length}; first difference at index {i}: received {toks.getD i "nothing"}")
     -- model = observed
     let some mdl := st.modelOut.toList.mapM edgeToData | .error (.mismatch "model emitted a non-data message")
-    if !echoIdentity mdl (recvd.map (·.1)) then
-      .error (.mismatch s!"model output differs from the observed output at index {firstDiff mdl (recvd.map (·.1))}")
+    if !echoIdentity mdl rd then
+      .error (.mismatch s!"model output differs from the observed output at index {firstDiff mdl rd}")
     let mdlHints := st.modelOut.toList.map (fun m => match m with | .buffered b _ => b.sizeHint | _ => 0)
     if mdlHints != recvd.map (·.2) then .error (.mismatch s!"size hints: model {mdlHints} observed {recvd.map (·.2)}")
+    if !echoIdentity sent rd then
+      .error (.known "batch-dims-rederived" s!"a batch whose dimension list is not the sorted list of its tag keys came back with dimensions and group re-derived from its tags")
     let mut st := st
     if ka == "ka=1" then st := addBr st "keepalive-crossed"
     if sent.isEmpty then st := addBr st "session-empty"
@@ -281,6 +310,9 @@ def judgeOut (st : St) (obs : List String) (l : String) : Except Verdict St := d
 def judgeLine (st : St) (l : String) : Except Verdict St := do
   let (opT, obs) := splitObs (tokens l)
   if obs == ["panic"] then .error (.specfail "no-panic" l)
+  -- once the model session has aborted (recorded deviation invalid-utf8) nothing but the final `out` is judged:
+  -- what the implementation does with later sends / snapshot calls depends on when it notices the abort
+  if st.sess.aborted && opT.head? != some "out" then return st
   match opT with
   | ["w", tok] => judgeWrite st tok obs l
   | ["rd", pat, ewd, cut] => judgeRead st pat ewd cut obs l
@@ -292,10 +324,13 @@ def judgeLine (st : St) (l : String) : Except Verdict St := do
     return (if ka != "0" then addBr st "keepalive-on" else st)
   | ["pt", tok] =>
     let some p := parseInPoint tok | .error (.badop l)
+    let bad := devUtf8 (.point p)
     match obs with
-    | [g] =>
-      if g != esc p.group then .error (.mismatch s!"ToGroupID: model {esc p.group} observed {g}")
-    | _ => .error (.specfail "session-clean" s!"server aborted while a point was sent: {obs}")
+    | g :: rest =>
+      if g != escB p.group then .error (.mismatch s!"ToGroupID: model {escB p.group} observed {g}")
+      if !bad && !rest.isEmpty then .error (.specfail "session-clean" s!"server aborted while a point was sent: {obs}")
+    | _ => .error (.badop l)
+    if bad then return (← runModel (addBr st "invalid-utf8-input") [.point p])
     let inBatch := st.sess.rstate.points.isSome
     let mut st := addBrs st (["point", groupBranch p.byName p.dims] ++ fieldBranches p.fields ++ (if p.tags.isEmpty then ["tags-empty"] else []))
     if inBatch then st := addBr st "point-while-batch-open"
@@ -305,24 +340,28 @@ def judgeLine (st : St) (l : String) : Except Verdict St := do
   | [kind, tok] =>
     if kind == "bb" || kind == "ub" then
       let some (b, pts, wasSet) := parseInBatch tok | .error (.badop l)
+      let bad := devUtf8 (.batch b pts)
+      let msgs : List EdgeMsg := if kind == "bb" then [.buffered b pts] else [.begin b] ++ pts.map .bp ++ [.endB]
       match obs with
-      | [g, d, t] =>
-        if g != esc b.group then .error (.mismatch s!"batch ToGroupID: model {esc b.group} observed {g}")
+      | g :: d :: t :: rest =>
+        if g != escB b.group then .error (.mismatch s!"batch ToGroupID: model {escB b.group} observed {g}")
         if d != renderDims b.dims then .error (.mismatch s!"batch dimensions: model {renderDims b.dims} observed {d}")
         match parseTags t with
         | some t => if !sameMap t b.tags then .error (.mismatch s!"batch tags after SetTagsAndDimensions: observed {t}")
         | none => .error (.badop l)
-      | _ => .error (.specfail "session-clean" s!"server aborted while a batch was sent: {obs}")
+        if !bad && !rest.isEmpty then .error (.specfail "session-clean" s!"server aborted while a batch was sent: {obs}")
+      | _ => .error (.badop l)
+      if bad then return (← runModel (addBr st "invalid-utf8-input") msgs)
       let mut st := addBrs st ([if kind == "bb" then "batch-buffered" else "batch-unbuffered", "batch-" ++ groupBranch b.byName b.dims,
         if pts.isEmpty then "batch-empty" else if pts.length == 1 then "batch-1" else "batch-n"] ++ pts.flatMap (fun p => fieldBranches p.fields))
       if b.sizeHint != pts.length then st := addBr st "sizehint-wrong"
       if wasSet then st := addBr st "batch-dims-set"
+      if devDims (.batch b pts) then st := addBr st "batch-dims-not-sorted-keys"
       if pts.any (fun p => !sameMap p.tags b.tags) then st := addBr st "bp-own-tags"
       if st.sent.any (fun d => match d with | .batch _ _ => true | _ => false) then st := addBr st "batch-after-batch"
       if !pts.isEmpty && st.chunked then st := { st with nontrivial := true }
       st := { st with sent := st.sent.push (.batch b pts) }
-      if kind == "bb" then runModel st [.buffered b pts]
-      else runModel st ([.begin b] ++ pts.map .bp ++ [.endB])
+      runModel st msgs
     else if kind == "snap" || kind == "snapc" then
       let some bytes := parseHex tok | .error (.badop l)
       let some got := (match obs with | [h] => parseHex h | _ => none) |
@@ -353,9 +392,10 @@ def judgeLine (st : St) (l : String) : Except Verdict St := do
     let some (b, pts, _) := parseInBatch tok | .error (.badop l)
     let some k := k.toNat? | .error (.badop l)
     let some bytes := parseHex hex | .error (.badop l)
+    if devUtf8 (.batch b pts) then return (← runModel (addBr st "invalid-utf8-input") ([.begin b] ++ pts.map .bp ++ [.endB]))
     match obs with
     | [g, d, _, h] =>
-      if g != esc b.group then .error (.mismatch s!"batch ToGroupID: model {esc b.group} observed {g}")
+      if g != escB b.group then .error (.mismatch s!"batch ToGroupID: model {escB b.group} observed {g}")
       if d != renderDims b.dims then .error (.mismatch s!"batch dimensions: model {renderDims b.dims} observed {d}")
       let some got := parseHex h | .error (.specfail "snapshot-bytes" s!"Snapshot() inside a batch failed: {h}")
       if !snapshotIdentity bytes got then
@@ -373,53 +413,10 @@ def judgeLine (st : St) (l : String) : Except Verdict St := do
   | ["out"] => judgeOut st obs l
   | _ => .error (.badop l)
 
-def runLines (st : St) (lines : List String) : Except Verdict St :=
-  lines.foldlM judgeLine st
-
-/-! ### recorded deviation `invalid-utf8` (findings/C19.txt)
-
-`Dev(input)`: some data message of the session carries a string (name, database, retention policy, dimension,
-tag key or value, field key or string value) that is not valid UTF-8. Deviated output: `proto.Marshal` rejects
-the request, `writeData` returns the error, the server aborts; what was received is the echo of a prefix of the
-messages sent BEFORE the offending one. (Lean's `String` cannot hold such an input, so the model is not run
-beyond it; everything before it is judged as usual.) -/
-
-def invalidUtf8 (tok : String) : Bool := (unescRaw tok).isSome && (unesc tok).isNone
-
-def isBadDataLine (l : String) : Bool :=
-  match (splitObs (tokens l)).1 with
-  | [k, tok] => (k == "pt" || k == "bb" || k == "ub") && invalidUtf8 tok
-  | _ => false
-
-def judgeDeviation (st : St) (rest : List String) : Verdict :=
-  match rest.find? (fun l => (tokens l).head? == some "out") with
-  | none => .badop "invalid-utf8 case without an out line"
-  | some l =>
-    match (splitObs (tokens l)).2 with
-    | status :: _ :: _ :: toks =>
-      let toks := if toks == ["!"] then [] else toks
-      match toks.mapM parseOut with
-      | none => .badop l
-      | some recvd =>
-        let sent := st.sent.toList
-        if status == "ok" then
-          .specfail "session-clean" "a message with a string that is not valid UTF-8 was sent and the session reports ok (deviation invalid-utf8 no longer matches: delete it)"
-        else if recvd.length ≤ sent.length && echoIdentity (sent.take recvd.length) (recvd.map (·.1)) then
-          .known "invalid-utf8" s!"server aborted; {recvd.length} of the {sent.length} messages sent before the offending one came back"
-        else .specfail "echo-identity" "invalid UTF-8 input: what came back is not the echo of a prefix of what was sent before it"
-    | _ => .badop l
-
 def judge (_id : String) (lines : Array String) : Verdict :=
-  let ls := lines.toList
-  match ls.findIdx? isBadDataLine with
-  | some i =>
-    match runLines {} (ls.take i) with
-    | .error v => v
-    | .ok st => judgeDeviation st (ls.drop i)
-  | none =>
-    match runLines {} ls with
-    | .ok st => .ok st.nontrivial st.branches.reverse
-    | .error v => v
+  match lines.toList.foldlM judgeLine {} with
+  | .ok st => .ok st.nontrivial st.branches.reverse
+  | .error v => v
 
 end Kap.C19.Drv
 
